@@ -91,7 +91,7 @@ func (e *Exec) call(ins ssa.Instruction, c *ssa.CallCommon, res ssa.Value, reach
 		fv := e.val(c.Value)
 		e.vc.oblig("nil", "func:"+exprName(c.Value), reach, not(eq(fv.S, "0")), "call of nil function", posOf(ins))
 		h2 := h.havoc(allMods, "dyncall")
-		e.setResult(res, e.havocVal(c.Signature().Results(), resName(res, "dyn"), h2))
+		e.setResult(res, e.resultValue(c.Signature().Results(), resName(res, "dyn"), h2))
 		return h2
 	}
 	if mc, ok := c.Value.(*ssa.MakeClosure); ok {
@@ -335,7 +335,7 @@ func (e *Exec) pureResult(con *Contract, name string, args []Term, rt *types.Tup
 		argSorts = append(argSorts, string(a.Sort))
 	}
 	anchor := ""
-	if len(args) > 0 && args[0].Sort == SInt {
+	if len(args) > 0 && args[0].Sort == SRef {
 		anchor = args[0].S
 	}
 	ra, rs := e.p.readArgs(u, con.Reads, h, anchor)
@@ -373,7 +373,7 @@ func (e *Exec) pureResult(con *Contract, name string, args []Term, rt *types.Tup
 		}
 		u.declareUF(fn, fmt.Sprintf("(declare-fun %s (%s) %s)", fn, strings.Join(argSorts, " "), so))
 		tm := mk(app(fn, argS...), so, t)
-		if len(con.Reads) == 0 && so == SInt && isRefLike(t) && e.vc.clock0 != "" {
+		if len(con.Reads) == 0 && so == SRef && isRefLike(t) && e.vc.clock0 != "" {
 			// no reads, no allocation: any reference it returns existed when the function under
 			// verification was entered (quantified, so that it also holds under binders)
 			if e.vc.axInst == nil {
